@@ -320,6 +320,7 @@ func SpecMatch(pattern string, hasWild bool, s string) bool {
 //@   safety[C15]
 
 //@ func (*Cache).Call
+//@   callback callback requires err != nil ==> reserr.predErrOK(err)
 //@   requires c != nil && req != nil
 //@   assumes predCacheOK(c) && c.mq != nil
 //@   resolves[C07] callback exactly-once
@@ -330,6 +331,7 @@ func SpecMatch(pattern string, hasWild bool, s string) bool {
 //@   safety[C15]
 
 //@ func (*Cache).Auth
+//@   callback callback requires err != nil ==> reserr.predErrOK(err)
 //@   requires c != nil && req != nil
 //@   assumes predCacheOK(c) && c.mq != nil
 //@   resolves[C07] callback exactly-once
